@@ -91,7 +91,8 @@ func genValue(rt *rapid.T, label string, maxChunks uint16) []byte {
 		lens = append(lens, 64, 100, 127)
 	}
 	n := rapid.SampledFrom(lens).Draw(rt, label+"len")
-	b := rapid.Byte().Draw(rt, label+"fill")
+	// small fill alphabet: writing back a value equal to the parent's / an earlier one must be frequent
+	b := rapid.SampledFrom([]byte{0x11, 0x11, 0x22, 0xee}).Draw(rt, label+"fill")
 	v := make([]byte, n)
 	for i := range v {
 		v[i] = b
@@ -116,7 +117,8 @@ type genOpts struct {
 	allowInvalid  bool // txs that invalidate the block
 	allowSponsorK bool // actions may declare/touch balance keys
 	oddPerms      bool
-	yields        bool // sprinkle scheduler yields into the programs
+	yields        bool              // sprinkle scheduler yields into the programs
+	parentVals    map[string][]byte // values of the parent state: puts re-use them now and then
 }
 
 func genRules(rt *rapid.T, allowHuge bool) RulesSpec {
@@ -210,7 +212,9 @@ func genAction(rt *rapid.T, i int, o genOpts, sponsor int, forceFail bool) fixtu
 			a.Ops = append(a.Ops, fixture.Op{Kind: fixture.OpGet, Key: key})
 		case fixture.OpPut:
 			var v []byte
-			if rapid.IntRange(0, 9).Draw(rt, ol+"anyval") == 0 {
+			if pv, ok := o.parentVals[string(key)]; ok && rapid.IntRange(0, 3).Draw(rt, ol+"sameAsParent") == 0 {
+				v = append([]byte{}, pv...)
+			} else if rapid.IntRange(0, 9).Draw(rt, ol+"anyval") == 0 {
 				v = genAnyValue(rt, ol)
 			} else {
 				v = genValue(rt, ol, chunksOf(key))
@@ -296,9 +300,16 @@ func genBlockCase(rt *rapid.T, o genOpts) BlockCase {
 	c.PTime = baseTime + 1000*rapid.Int64Range(0, 50).Draw(rt, "ptime")
 	c.Height = c.PHeight + 1
 	c.Time = c.PTime + c.Rules.MinEmptyBlockGap + c.Rules.MinBlockGap + rapid.SampledFrom([]int64{0, 1, 999, 1000, 12000}).Draw(rt, "dt")
+	o.parentVals = map[string][]byte{}
+	for _, kv := range c.Parent {
+		o.parentVals[string(kv.K)] = kv.V
+	}
 	n := rapid.IntRange(0, o.maxTxs).Draw(rt, "ntxs")
 	for i := 0; i < n; i++ {
 		c.Txs = append(c.Txs, genTx(rt, i, c.Rules, c.Time, o))
+	}
+	if o.maxTxs >= 4 && rapid.IntRange(0, 1).Draw(rt, "templates") == 0 {
+		c.Txs = spliceTemplates(rt, c, o)
 	}
 	ncfg := rapid.IntRange(2, 3).Draw(rt, "ncfg")
 	c.Configs = []fixture.ExecConfig{{Cores: 1, Fetch: 1, AuthWorkers: 0}}
@@ -395,4 +406,106 @@ func (bb *builtBlock) expectedRoot(c BlockCase) (ids.ID, error) {
 	post[string(fixture.TimestampKey())] = binary.BigEndian.AppendUint64(nil, uint64(c.Time))
 	post[string(fixture.FeeKey())] = fm.Bytes()
 	return fixture.RootOf(post)
+}
+
+// spliceTemplates inserts 1-2 small hand-shaped transaction groups (in order, at
+// increasing random positions) into the random block. Random generation alone
+// reaches these shapes too rarely (measured: about 1 in 20 000 blocks for the
+// first one); everything about them except the shape is still drawn.
+func spliceTemplates(rt *rapid.T, c BlockCase, o genOpts) []fixture.TxSpec {
+	exp := 1000 * ((c.Time + 999) / 1000)
+	mk := func(sp int, acts ...fixture.ActSpec) fixture.TxSpec {
+		for i := range acts {
+			acts[i].Start, acts[i].End = -1, -1
+			acts[i].Nonce = rapid.Uint64Range(1<<21, 1<<22).Draw(rt, "tnonce")
+		}
+		if len(acts) > int(c.Rules.MaxActions) {
+			acts = acts[:c.Rules.MaxActions]
+		}
+		return fixture.TxSpec{Sponsor: sp, AuthStart: -1, AuthEnd: -1, Expiry: exp, MaxFee: ^uint64(0), Actions: acts}
+	}
+	pickKey := func(label string, needChunks bool) []byte {
+		var pool [][]byte
+		for _, kv := range c.Parent {
+			if !needChunks || chunksOf(kv.K) >= 1 {
+				pool = append(pool, kv.K)
+			}
+		}
+		if len(pool) == 0 || rapid.IntRange(0, 3).Draw(rt, label+"fresh") == 0 {
+			for _, k := range universe {
+				if !needChunks || chunksOf(k) >= 1 {
+					pool = append(pool, k)
+				}
+			}
+		}
+		return rapid.SampledFrom(pool).Draw(rt, label)
+	}
+	valFor := func(label string, k []byte) []byte {
+		if pv, ok := o.parentVals[string(k)]; ok && rapid.IntRange(0, 2).Draw(rt, label+"same") != 0 {
+			return append([]byte{}, pv...)
+		}
+		return genValue(rt, label, chunksOf(k))
+	}
+	get := func(k []byte) fixture.Op { return fixture.Op{Kind: fixture.OpGet, Key: k} }
+	put := func(k, v []byte) fixture.Op { return fixture.Op{Kind: fixture.OpPut, Key: k, Val: v} }
+	del := func(k []byte) fixture.Op { return fixture.Op{Kind: fixture.OpDel, Key: k} }
+	yield := func(n byte) fixture.Op { return fixture.Op{Kind: fixture.OpYield, Val: []byte{n}} }
+	decl := func(k []byte, p uint8) fixture.KeyDecl { return fixture.KeyDecl{Key: k, Perm: p} }
+	sp := func(label string) int { return rapid.IntRange(0, nSponsors-1).Draw(rt, label) }
+
+	var group []fixture.TxSpec
+	n := rapid.IntRange(1, 2).Draw(rt, "ntemplates")
+	for t := 0; t < n; t++ {
+		lbl := fmt.Sprintf("tm%d.", t)
+		switch rapid.IntRange(0, 3).Draw(rt, lbl+"kind") {
+		case 0: // delete in one tx, re-create (often with the parent's value) in a later one, read in a third
+			k := pickKey(lbl+"k", false)
+			group = append(group,
+				mk(sp(lbl+"s0"), fixture.ActSpec{Keys: []fixture.KeyDecl{decl(k, 7)}, Ops: []fixture.Op{get(k), del(k)}}),
+				mk(sp(lbl+"s1"), fixture.ActSpec{Keys: []fixture.KeyDecl{decl(k, 7)}, Ops: []fixture.Op{get(k), put(k, valFor(lbl+"v", k)), get(k)}}),
+				mk(sp(lbl+"s2"), fixture.ActSpec{Keys: []fixture.KeyDecl{decl(k, 1)}, Ops: []fixture.Op{get(k)}}))
+		case 1: // A owns k1,k2; readers of k2 linger; T reads k1 and writes k2
+			k1, k2 := pickKey(lbl+"k1", true), pickKey(lbl+"k2", true)
+			if string(k1) == string(k2) {
+				k2 = fixture.UKey('e', 2)
+				if string(k1) == string(k2) {
+					k2 = fixture.UKey('d', 2)
+				}
+			}
+			group = append(group, mk(sp(lbl+"sa"), fixture.ActSpec{Keys: []fixture.KeyDecl{decl(k1, 7), decl(k2, 7)},
+				Ops: []fixture.Op{put(k1, valFor(lbl+"va1", k1)), put(k2, valFor(lbl+"va2", k2))}}))
+			nr := rapid.IntRange(1, 3).Draw(rt, lbl+"nreaders")
+			for r := 0; r < nr; r++ {
+				group = append(group, mk(sp(fmt.Sprintf("%ssr%d", lbl, r)), fixture.ActSpec{Keys: []fixture.KeyDecl{decl(k2, 1)},
+					Ops: []fixture.Op{yield(rapid.SampledFrom([]byte{20, 200, 250}).Draw(rt, fmt.Sprintf("%sy%d", lbl, r))), get(k2), yield(20), get(k2)}}))
+			}
+			group = append(group, mk(sp(lbl+"st"), fixture.ActSpec{Keys: []fixture.KeyDecl{decl(k1, 1), decl(k2, 7)},
+				Ops: []fixture.Op{get(k1), put(k2, genValue(rt, lbl+"vt", chunksOf(k2))), get(k2)}}))
+		case 2: // a write of the value already there, then a reader
+			k := pickKey(lbl+"k", false)
+			group = append(group,
+				mk(sp(lbl+"s0"), fixture.ActSpec{Keys: []fixture.KeyDecl{decl(k, 7)}, Ops: []fixture.Op{put(k, valFor(lbl+"v", k)), get(k)}}),
+				mk(sp(lbl+"s1"), fixture.ActSpec{Keys: []fixture.KeyDecl{decl(k, 5)}, Ops: []fixture.Op{get(k), del(k), get(k)}}))
+		default: // delete, re-create, delete (and maybe re-create) inside one tx, split over actions
+			k := pickKey(lbl+"k", false)
+			ops := []fixture.Op{del(k), put(k, valFor(lbl+"v", k)), del(k), get(k)}
+			if rapid.Bool().Draw(rt, lbl+"again") {
+				ops = append(ops, put(k, valFor(lbl+"v2", k)), get(k))
+			}
+			cut := rapid.IntRange(1, len(ops)-1).Draw(rt, lbl+"cut")
+			group = append(group, mk(sp(lbl+"s0"),
+				fixture.ActSpec{Keys: []fixture.KeyDecl{decl(k, 7)}, Ops: ops[:cut]},
+				fixture.ActSpec{Keys: []fixture.KeyDecl{decl(k, 7)}, Ops: ops[cut:]}),
+				mk(sp(lbl+"s1"), fixture.ActSpec{Keys: []fixture.KeyDecl{decl(k, 1)}, Ops: []fixture.Op{get(k)}}))
+		}
+	}
+	// splice in order at increasing positions
+	out := append([]fixture.TxSpec{}, c.Txs...)
+	pos := 0
+	for i, tx := range group {
+		pos = rapid.IntRange(pos, len(out)).Draw(rt, fmt.Sprintf("tpos%d", i))
+		out = append(out[:pos], append([]fixture.TxSpec{tx}, out[pos:]...)...)
+		pos++
+	}
+	return out
 }
